@@ -3,14 +3,16 @@
 (* "random").  Record: [id, k ("tp" | "dur" | "time_t"), u, r, c (decimal string), cby (the 8 bytes of the     *)
 (* count, big endian two's complement), text, tc (its bytes), t16/t32/tw (code units of the wide forms),       *)
 (* back (text parsed back), ts (<<seconds, nanoseconds>> of CBinTimestamp), tsback, mp (MsgPack archive round   *)
-(* trip of a member), mphex]  or  [id, crash].                                                                *)
+(* trip of a member, string entry points), mps (the same through std::ostream / std::istream), js / jstext       *)
+(* (time_t only: CTimeRef member in a JSON archive)]  or  [id, crash].                                                                *)
 (* Required (property C14):                                                                                   *)
 (*   text   = IsoPrint(c, u) for time points / time_t; for durations: the text is in the strict duration     *)
 (*            grammar and denotes exactly c ticks (D6 in Chrono.tla)                                          *)
 (*   wide   the char16_t / char32_t / wchar_t forms have the same characters                                  *)
 (*   back   = c                                                                                               *)
 (*   ts     = TsSplit(c, u) (seconds, 0..999999999 ns) when the seconds fit int64, else an exception          *)
-(*   tsback = c, mp = c     (when the timestamp is representable; else any exception, never a value)          *)
+(*   tsback = c, mp = c, mps = c  (when the timestamp is representable; else any exception, never a value)    *)
+(*   js = c and jstext = {"v":"<IsoPrint(c)>"}   (time_t via CTimeRef in a text archive)                       *)
 EXTENDS Chrono, Json, IOUtils
 
 VARIABLE dummy
@@ -106,7 +108,14 @@ Verdicts(e) ==
       F7 == IF tsFits THEN (IF e.mp = V(c) THEN <<>>
                             ELSE <<Bad("msgpack", IF e.k # "time_t" /\ NegNsCase(c, u) THEN "Dev_NegativeNanoseconds" ELSE "", e.mp, V(c))>>)
             ELSE (IF e.mpk = "V" THEN <<Bad("msgpack", "", e.mp, "exception: seconds exceed int64")>> ELSE <<>>)
-  IN F1 \o F2 \o F3 \o F4 \o F5 \o F6 \o F7
+      \* the same value saved through the std::ostream writer and loaded through the std::istream reader
+      F8 == IF tsFits THEN (IF e.mps = V(c) THEN <<>> ELSE <<Bad("msgpack-stream", "", e.mps \o " bytes " \o e.mpshex, V(c))>>)
+            ELSE (IF e.mpsk = "V" THEN <<Bad("msgpack-stream", "", e.mps, "exception: seconds exceed int64")>> ELSE <<>>)
+      \* time_t through CTimeRef in a text archive (JSON): written as the ISO-8601 text of the instant, loaded back unchanged
+      F9 == IF e.k # "time_t" THEN <<>>
+            ELSE (IF e.jstext = "{\"v\":\"" \o expText \o "\"}" THEN <<>> ELSE <<Bad("json-text", textDev, e.jstext, "{\"v\":\"" \o expText \o "\"}")>>)
+                 \o (IF e.js = V(c) THEN <<>> ELSE <<Bad("json-back", "", e.js, V(c))>>)
+  IN F1 \o F2 \o F3 \o F4 \o F5 \o F6 \o F7 \o F8 \o F9
 
 \* Rows of the table legs that differ from the expected table: [id, mode ("days" | "secs"), ur ("all" | "core"), row].
 \* row = <<d, entries>> or <<d, sod, entries>>; entry = <<>> or <<count, text, back, ts.seconds, ts.nanoseconds, tsback>>.
